@@ -159,7 +159,24 @@ def decision_leaves(body, limit=64):
         for idx, s in enumerate(sts):
             if s.get("k") == "If":
                 rest = sts[idx + 1:]
-                go(stmts(s["then"]) + rest, lits + [(s["c"], True)], list(acc))
+                c = strip(s["c"])
+                neg = False
+                while c.get("k") == "Un" and c.get("op") == "!":
+                    neg = not neg
+                    c = strip(c["e"])
+                if c.get("k") == "Bin" and c.get("op") in ("&&", "||"):
+                    # if(A && B) T else E  =  if(A) { if(B) T else E } else E ;  if(A || B) T else E  =  if(A) T else { if(B) T else E }
+                    T, E = s.get("then"), s.get("else")
+                    if neg:
+                        T, E = E, T
+                    inner = {"k": "If", "l": s.get("l"), "c": c["rhs"], "then": T, "else": E}
+                    if c["op"] == "&&":
+                        outer = {"k": "If", "l": s.get("l"), "c": c["lhs"], "then": inner, "else": E}
+                    else:
+                        outer = {"k": "If", "l": s.get("l"), "c": c["lhs"], "then": T, "else": inner}
+                    go([outer] + rest, lits, list(acc))
+                    return
+                go((stmts(s["then"]) if s.get("then") is not None else []) + rest, lits + [(s["c"], True)], list(acc))
                 go((stmts(s["else"]) if s.get("else") is not None else []) + rest, lits + [(s["c"], False)], list(acc))
                 return
             if s.get("k") in ("Switch", "Try", "Goto", "Label", "Do"):
@@ -261,3 +278,91 @@ def alias_value(cond, loc, ptr_params, pattern, size_name="size"):
             return NONEMPTY
         return None
     return ev(cond)
+
+
+PURE_CALLS = ("FEAT::Math::abs", "FEAT::Math::eps", "FEAT::Math::sqr", "FEAT::Math::sqrt", "FEAT::Math::min", "FEAT::Math::max",
+              "FEAT::Math::tiny", "FEAT::Math::huge", "std::abs", "std::fabs", "std::numeric_limits::epsilon", "std::numeric_limits::min")
+
+
+def scalar_guard(cond, loc, scalar_params):
+    """a branch condition over the scalar parameters only (scalar_params: decl id -> name) ->
+         ('eq', name, value)   the condition is `name == value` (value a number)
+         ('ne', name, value)   the condition is `name != value`
+         ('region', text)      any other side-effect free test of scalar parameters / constants (|a| < tol, a > 0, ...)
+       None if the condition reads anything else."""
+    from lafem_roles import const_value, strip_targs
+    n = loc.resolve(cond)
+    neg = False
+    while n is not None and n.get("k") == "Un" and n.get("op") == "!":
+        neg = not neg
+        n = loc.resolve(n["e"])
+    if n is None:
+        return None
+    if n.get("k") == "Bin" and n.get("op") in ("==", "!="):
+        a, b = loc.resolve(n["lhs"]), loc.resolve(n["rhs"])
+        for x, y in ((a, b), (b, a)):
+            if x.get("k") == "Ref" and x.get("d") in scalar_params:
+                v = const_value(loc, y)
+                if v is not None:
+                    eq = (n["op"] == "==") != neg
+                    return ("eq" if eq else "ne", scalar_params[x["d"]], v)
+    for y in walk(n):
+        k = y.get("k")
+        if k == "Ref":
+            if y.get("d") in scalar_params or "v" in y or y.get("dk") in ("enum", "func", "tparam"):
+                continue
+            r = loc.resolve(y)
+            if r is not y and r.get("k") != "Ref":
+                if scalar_guard_pure(r, loc, scalar_params):
+                    continue
+            return None
+        if k in ("Call",):
+            if strip_targs(y.get("callee", "")) not in PURE_CALLS:
+                return None
+        elif k in ("MCall", "OpCall", "Assign", "Index", "Member", "Lambda", "New", "Delete") or (k == "Un" and y.get("op") in ("++", "--", "*", "&")):
+            return None
+    return ("region", ("!" if neg else "") + render(n))
+
+
+def scalar_guard_pure(n, loc, scalar_params):
+    return scalar_guard(n, loc, scalar_params) is not None
+
+
+def array_units(fn, loc, call, blocked_classes):
+    """a library array routine (MemoryPool::set_memory / copy / convert: `count` elements of the pointee type) called with value
+    arrays of LAFEM containers -> (units of the pointer arguments, unit of the count, description) where a unit is
+    'scalar' (pod perspective of a blocked container, or any array of a scalar container), 'block' (native perspective of a
+    blocked container), 'const' (literal count) or None (not modelled).  Pointer arguments may carry an offset (`p + k`)."""
+    from lafem_roles import accessor, const_value, strip_targs
+    pn, args = call.get("pn", []), call.get("a", [])
+    if len(pn) != len(args) or "count" not in pn:
+        return None
+    ptr_units, desc = [], []
+    for slot, a in zip(pn, args):
+        if slot == "count":
+            continue
+        r = loc.resolve(a)
+        while r.get("k") == "Bin" and r.get("op") in ("+", "-"):
+            r = loc.resolve(r["lhs"])
+        acc = accessor(loc, r)
+        if acc is None or acc["name"] not in ("val", "elements"):
+            continue
+        blocked = strip_targs(acc["cls"]) in blocked_classes
+        u = "scalar" if (not blocked or acc["persp"] == "pod") else "block"
+        ptr_units.append(u)
+        desc.append("%s.%s<%s>()" % (acc["obj"], acc["name"], acc["persp"] or ("native" if blocked else "-")))
+    if not ptr_units:
+        return None
+    cnt = args[pn.index("count")]
+    cu = None
+    if const_value(loc, cnt) is not None:
+        cu, cdesc = "const", render(cnt)
+    else:
+        acc = accessor(loc, cnt)
+        if acc is not None and acc["name"] in ("used_elements", "size", "allocated_elements", "rows", "columns"):
+            blocked = strip_targs(acc["cls"]) in blocked_classes
+            cu = "scalar" if (not blocked or acc["persp"] == "pod") else "block"
+            cdesc = "%s.%s<%s>()" % (acc["obj"], acc["name"], acc["persp"] or ("native" if blocked else "-"))
+        else:
+            cdesc = render(cnt)[:60]
+    return ptr_units, cu, "%s with count %s" % (", ".join(desc), cdesc)
